@@ -191,6 +191,30 @@ def expand_matches(text, applied):
         applied.add("R10 matches!(e, p) -> (match e { p => true, _ => false })")
 
 
+def rewrite_mut_self(text, block, applied):
+    """R11: Verus has no `mut self` receiver. `fn f(mut self, ..) { B }` is written as
+    `fn f(self, ..) { let mut this = self; B[self := this] }` - the same move into a mutable local
+    that `mut self` denotes."""
+    m = R.mask(text)
+    mm = re.search(r"\(\s*mut\s+self\b", m)
+    if not mm:
+        raise R.LostAnchor("%s: mutself: no `mut self` receiver" % (block.path,))
+    body_open = m.index("{", mm.end())
+    head = text[:mm.start()] + "(self" + text[mm.end():body_open]
+    body = text[body_open:]
+    mb = R.mask(body)
+    out, last = [], 0
+    for w in re.finditer(r"\bself\b", mb):
+        out.append(body[last:w.start()])
+        out.append("this")
+        last = w.end()
+    out.append(body[last:])
+    body = "".join(out)
+    body = "{\n    let mut this = self;" + body[1:]
+    applied.add("R11 `mut self` receiver -> `let mut this = self;` and `this` for `self` in the body")
+    return head + body
+
+
 def strip_comments(text):
     m = R.mask(text, strings=False, comments=True)
     # drop lines that became empty because they only held a comment
@@ -294,6 +318,8 @@ def process_fn(text, block, applied, canary=False):
             applied.add("R7 dropped `%s`" % old)
     if any(k == "expand_matches" for k, _ in d):
         text = expand_matches(text, applied)
+    if any(k == "mutself" for k, _ in d):
+        text = rewrite_mut_self(text, block, applied)
     text = rewrite_macros(text, applied)
 
     m = R.mask(text)
@@ -521,6 +547,41 @@ def _split_params(text):
     return [p.strip() for p in parts if p.strip()]
 
 
+def _helper_text(file, desc, item, fn_name, impl_hdr):
+    applied = set()
+    txt = strip_comments(item)
+    txt = strip_attrs(txt, applied)
+    txt = strip_vis(txt, applied)
+    txt = re.sub(r"^(\s*)((?:const|unsafe)\s+)*fn\b", r"\1fn", txt)
+    txt = rewrite_macros(txt, applied)
+    m2 = R.mask(txt)
+    po = m2.index("(")
+    pc = _paren_end(m2, po)
+    params = txt[po + 1:pc]
+    bo = m2.index("{", pc)
+    ret = txt[pc + 1:bo]
+    rm = re.search(r"->\s*(.+?)\s*$", ret.strip(), re.S)
+    if not rm:
+        return None
+    ret_ty = rm.group(1)
+    generics = txt[m2.index("fn") + 2:po].replace(fn_name, "", 1).strip()
+    body_txt = txt[bo:]
+    names = []
+    for prm in _split_params(params):
+        if re.match(r"(&\s*)?(mut\s+)?self$", prm):
+            names.append("self")
+        else:
+            names.append(re.sub(r"^mut\s+", "", prm.split(":")[0].strip()))
+    spec_params = re.sub(r"\bmut\s+", "", params)
+    call = ("self.%s__spec(%s)" % (fn_name, ", ".join(n for n in names if n != "self"))) if "self" in names \
+        else ("Self::%s__spec(%s)" % (fn_name, ", ".join(names)))
+    return ("\n// auto-extracted helper (not listed in the unit): %s\n%s {\n"
+            "    spec fn %s__spec%s(%s) -> %s %s\n\n"
+            "    fn %s%s(%s) -> (r: %s)\n        ensures r == %s,\n    %s\n}\n") % (
+        desc, impl_hdr, fn_name, generics, spec_params, ret_ty, body_txt,
+        fn_name, generics, params, ret_ty, call, body_txt)
+
+
 def auto_helper(file, type_name, fn_name):
     """A helper function that the extracted code calls but the unit does not list (typically
     introduced by a refactoring): copied verbatim (R1-R5) into an `impl` block together with a
@@ -536,42 +597,45 @@ def auto_helper(file, type_name, fn_name):
             continue
         for (k2, s2, h2, b2, e2) in R.items_in(masked, body + 1, end - 1):
             if k2 == "fn" and R.header_name("fn", h2) == fn_name:
-                item = src[s2:e2]
-                applied = set()
-                blk = Block(file, ["impl " + type_name, "fn " + fn_name], 0)
-                txt = strip_comments(item)
-                txt = strip_attrs(txt, applied)
-                txt = strip_vis(txt, applied)
-                txt = re.sub(r"^(\s*)((?:const|unsafe)\s+)*fn\b", r"\1fn", txt)
-                txt = rewrite_macros(txt, applied)
-                m2 = R.mask(txt)
-                po = m2.index("(")
-                pc = _paren_end(m2, po)
-                params = txt[po + 1:pc]
-                bo = m2.index("{", pc)
-                ret = txt[pc + 1:bo]
-                rm = re.search(r"->\s*(.+?)\s*$", ret.strip(), re.S)
-                if not rm:
-                    return None
-                ret_ty = rm.group(1)
-                body_txt = txt[bo:]
-                names = []
-                for prm in _split_params(params):
-                    if re.match(r"(&\s*)?(mut\s+)?self$", prm):
-                        names.append("self")
-                    else:
-                        names.append(re.sub(r"^mut\s+", "", prm.split(":")[0].strip()))
-                spec_params = re.sub(r"\bmut\s+", "", params)
-                call = ("self.%s__spec(%s)" % (fn_name, ", ".join(n for n in names if n != "self"))) if "self" in names \
-                    else ("Self::%s__spec(%s)" % (fn_name, ", ".join(names)))
                 impl_hdr = src[start:body].strip()
                 impl_hdr = re.sub(r"^pub(\([^)]*\))?\s+", "", impl_hdr)
-                return ("\n// auto-extracted helper (not listed in the unit): %s >> impl %s >> fn %s\n%s {\n"
-                        "    spec fn %s__spec(%s) -> %s %s\n\n"
-                        "    fn %s(%s) -> (r: %s)\n        ensures r == %s,\n    %s\n}\n") % (
-                    file, type_name, fn_name, impl_hdr, fn_name, spec_params, ret_ty, body_txt,
-                    fn_name, params, ret_ty, call, body_txt)
+                return _helper_text(file, "%s >> impl %s >> fn %s" % (file, type_name, fn_name), src[s2:e2], fn_name, impl_hdr)
     return None
+
+
+def auto_helper_near(label, fn_name, gen_text, gen_line):
+    """Same, located by POSITION: the helper is searched in the source `impl` block (then module)
+    that the calling extracted function came from, and emitted under the `impl` header that
+    encloses the caller in the generated file (units re-home impls of type aliases)."""
+    parts = [p.strip() for p in label.split(">>")]
+    file, path = parts[0], parts[1:]
+    src, masked = _load(file)
+    item = None
+    for cut in range(len(path) - 1, -1, -1):
+        try:
+            st, bo, en = R.locate(src, masked, path[:cut] + ["fn " + fn_name])
+        except R.LostAnchor:
+            continue
+        # locate() includes leading docs/attributes: cut to the fn keyword via items_in
+        for (k2, s2, h2, b2, e2) in R.items_in(masked, st, en):
+            if k2 == "fn" and R.header_name("fn", h2) == fn_name:
+                item = src[s2:e2]
+                break
+        if item:
+            where = " >> ".join([file] + path[:cut] + ["fn " + fn_name])
+            break
+    if not item:
+        return None, None
+    lines = gen_text.split("\n")
+    hdr = None
+    for i in range(min(gen_line, len(lines)) - 1, -1, -1):
+        mm = re.match(r"^(impl\b.*?)\s*\{\s*$", lines[i])
+        if mm:
+            hdr = mm.group(1)
+            break
+    if hdr is None:
+        return None, None
+    return _helper_text(file, where, item, fn_name, hdr), where
 
 
 RE_ERR = re.compile(r"^(error|warning)(?:\[\w+\])?: (.*)$")
@@ -649,8 +713,37 @@ def run_unit(unit, timeout=600, with_canary=True):
             break
         files = sorted(set(m_["item"].split(" >> ")[0] for m_ in manifest))
         extra = ""
+        # where each missing name was reported (first location per name)
+        where_line = {}
+        cur_name = None
+        for ln_ in (err or "").splitlines():
+            mm_ = RE_MISSING.search(ln_)
+            if mm_:
+                cur_name = mm_.group(1)
+                continue
+            ml_ = RE_LOC.match(ln_)
+            if ml_ and cur_name and cur_name not in where_line:
+                where_line[cur_name] = int(ml_.group(2))
+                cur_name = None
         for fn_name, ty in sorted(missing):
+            if any(h_.endswith("fn " + fn_name) for h_ in helpers_added):
+                continue
             ty = ty.split("::")[-1]
+            h = None
+            gl = where_line.get(fn_name)
+            if gl is not None:
+                for a_, b_, label_ in spans:
+                    if a_ <= gl <= b_:
+                        try:
+                            h, where_ = auto_helper_near(label_, fn_name, text, gl)
+                        except Exception:
+                            h = None
+                        if h:
+                            extra += h
+                            helpers_added.append(where_)
+                        break
+            if h:
+                continue
             for f in files:
                 h = None
                 try:
